@@ -177,6 +177,13 @@ VDecodeOpts(ev) ==
       none == outs[1]                   \* no checks
       onlyRes == outs[2]  onlyVer == outs[3]  onlyUnu == outs[5]
   IN ConcatTags(One, outs, 1)
+     \* monotonicity with a panic as a third outcome: what decodes under stronger options must decode to the same
+     \* value under weaker ones, and what weaker options reject stronger ones must REJECT (a panic is neither)
+     \o (IF Len(outs) # 9 \/ allFinished THEN << >>
+         ELSE T(\E i, j \in 1..8 : Weaker(outs[i].opts, outs[j].opts)
+                  /\ \/ (Finished(outs[j].out) /\ OkOut(outs[j]) /\ ~Finished(outs[i].out))
+                     \/ (Finished(outs[i].out) /\ outs[i].out.t = "err" /\ ~Finished(outs[j].out)), "opts-monotone")
+              \o T(Finished(outs[9].out) # Finished(onlyVer.out), "default-entry"))
      \o (IF ~allFinished \/ Len(outs) # 9 THEN << >>
          ELSE T(\E i, j \in 1..8 : Weaker(outs[i].opts, outs[j].opts) /\ OkOut(outs[j])
                                      /\ ~(OkOut(outs[i]) /\ SameOut(outs[i], outs[j])), "opts-monotone")
@@ -203,7 +210,9 @@ VDecodeBits(ev) ==
       NoChecks == [res |-> FALSE, ver |-> FALSE, unu |-> FALSE]
       One(r) == MsgOutcomeTags(DecodeMessage(IF r.bit < 0 THEN ev.in ELSE Toggled(r.bit), NoChecks), r.out, r.rem)
   IN ConcatTags(One, vs, 1)
-     \o T(\E b \in IgnorableBits(w) : Finished(vs[1].out) /\ Finished(vs[b + 2].out) /\ ~SameOut(vs[1], vs[b + 2]), "bits-affect-result")
+     \o T(\E b \in IgnorableBits(w) :
+            \/ Finished(vs[1].out) /\ Finished(vs[b + 2].out) /\ ~SameOut(vs[1], vs[b + 2])
+            \/ Finished(vs[1].out) # Finished(vs[b + 2].out), "bits-affect-result")
      \o IoTags(ev)
 
 \* C08: octets after the declared end never change the result
@@ -215,7 +224,10 @@ VDecodeSuffix(ev) ==
       ra == [out |-> ev.out_a, rem |-> ev.rem_a]
       rb == [out |-> ev.out_b, rem |-> ev.rem_b - Len(ev.suffix)]
   IN MsgOutcomeTags(spa, ev.out_a, ev.rem_a) \o MsgOutcomeTags(spb, ev.out_b, ev.rem_b)
-     \o T(declared /\ Finished(ev.out_a) /\ Finished(ev.out_b) /\ ~(OkOut(rb) /\ OkOut(ra) /\ SameOut(ra, rb)), "suffix-dependence")
+     \* judged on the implementation's own two outcomes: the suffix changed nothing (a message that is wrongly
+     \* rejected both times is C05's business, not a dependence on what follows)
+     \o T(declared /\ (Finished(ev.out_a) # Finished(ev.out_b)
+                        \/ (Finished(ev.out_a) /\ Finished(ev.out_b) /\ ~SameOut(ra, rb))), "suffix-dependence")
      \o IoTags(ev)
 
 \* C08: decoding a concatenation of well-delimited records = concatenation of decoding each
